@@ -94,7 +94,8 @@ GenCmd(ed, sd, t, j) ==
                          (* the substitute and global commands belong to the profiles of C14 and C15 *)
                          q == IF wl = 2 /\ q0 >= 66 /\ q0 < 82 THEN q0 - 50
                               ELSE IF wl = 0 /\ q0 >= 74 /\ q0 < 82 THEN q0 - 50 ELSE q0 IN
-                     IF q < 14 THEN "a" ELSE IF q < 20 THEN "i" ELSE IF q < 27 THEN "c" ELSE IF q < 38 THEN "d"
+                     IF EnvN("UNDOHEAVY", 0) = 1 /\ Pick(sd, t, j + 3, 10) < 3 THEN (IF Pick(sd, t, j + 4, 3) = 0 THEN "redo" ELSE "u")
+                     ELSE IF q < 14 THEN "a" ELSE IF q < 20 THEN "i" ELSE IF q < 27 THEN "c" ELSE IF q < 38 THEN "d"
                      ELSE IF q < 43 THEN "y" ELSE IF q < 52 THEN "pu" ELSE IF q < 58 THEN "p" ELSE IF q < 61 THEN "="
                      ELSE IF q < 66 THEN "k" ELSE IF q < 74 THEN "s" ELSE IF q < 80 THEN "g" ELSE IF q < 82 THEN "v"
                      ELSE IF q < 89 THEN "u" ELSE IF q < 93 THEN "redo" ELSE IF q < 96 THEN "null"
